@@ -172,8 +172,8 @@ def fresh_draws_public(c, alg, hash_name, rkid):
     return len(w.draws)
 
 
-@harness(P, per_job=True, params=lambda tier: [dict(ncalls=n, hash_name="SHA256") for n in ([34] if tier == "quick" else [34, 130, 400])], max_steps=30000000,
-         bounds="long histories in one process: 34 (quick) / 130 and 400 (thorough) consecutive protect calls on one cache (sync and async alternating, an unprotect after every 7th call), nonce mode, "
+@harness(P, per_job=True, params=lambda tier: [dict(ncalls=n, hash_name="SHA256") for n in ([34] if tier == "quick" else [34, 130, 260])], max_steps=30000000, native_step_limit=12000000,
+         bounds="long histories in one process: 34 (quick) / 130 and 260 (thorough) consecutive protect calls on one cache (sync and async alternating, an unprotect after every 7th call), nonce mode, "
          "clock fixed: every blob's CEK, GCM nonce and key-identifier nonce are RNG output and no piece of RNG output is used twice - whatever pooling, batching or "
          "memoisation the implementation does across calls", outside="longer histories", must_reach=("long history: every blob's CEK, nonce and key-identifier nonce are RNG output",))
 def many_calls(c, ncalls, hash_name):
